@@ -130,7 +130,11 @@ class World(EventDispatcher):
 
         # Manage replaced components
         if component_type in self._entities.get(entity, {}):
+            dead = entity in self._dead_entities
             self.remove_component(entity, component_type)
+            # A replacement shall not cancel a pending deletion
+            if dead:
+                self._dead_entities.add(entity)
 
         # Index the new component after the removal of a replaced one,
         # which would otherwise drop the entity from the type index
@@ -292,6 +296,8 @@ class World(EventDispatcher):
                     del self._components[component_type]
 
             del self._entities[entity]
+            # Nothing is left to be deleted at next process
+            self._dead_entities.discard(entity)
 
         else:
             self._dead_entities.add(entity)
@@ -303,7 +309,10 @@ class World(EventDispatcher):
         the :meth:`delete_entity` method. If that method is changed,
         those changes should be duplicated here as well.
         """
-        for entity in self._dead_entities:
+        # Consume marks one by one, so that an invalid one cannot make
+        # every later call fail
+        while self._dead_entities:
+            entity = self._dead_entities.pop()
 
             for component_type, component in self._entities[entity].items():
                 self._components[component_type].discard(entity)
@@ -331,8 +340,6 @@ class World(EventDispatcher):
                     self.remove_handler(component)
 
             del self._entities[entity]
-
-        self._dead_entities.clear()
 
     def remove_component(self, entity: Hashable, component_type: type[C]):
         """Remove a component from an entity, if the entity owns one.
@@ -364,6 +371,8 @@ class World(EventDispatcher):
                 # Free dict entry for an entity if empty
                 if not self._entities[entity]:
                     del self._entities[entity]
+                    # Nothing is left to be deleted at next process
+                    self._dead_entities.discard(entity)
 
                 if removed is not None:
                     # No need to check if it is an handler, just check
